@@ -1,4 +1,5 @@
 (* C20: the model of the FPA opening scripts (Fpa.v) on the sub-trees / whole trees the Go driver enumerated.
+   CASE <variant> <size> <W|B> reuse <s1> <ms1> <m0> <m1>: the same sub-tree on a rule object left dirty by an earlier game.
    args: the repair switches that are ON in the code under test ("pinned" = none, "repaired" = all, or any of
    ds cb cw), and optionally "totals=<n>": evaluate the whole-tree cases (Fpa.run) only for sizes <= n. *)
 open Common
@@ -29,6 +30,15 @@ let run args =
     | [v; sz; c; "total"] ->
       if int_of_string sz > totals then (incr skipped; (impl, None, None))
       else (tally (Fpa.run [] fx (variant v) (n_of_string sz) (c = "W")), None, None)
+    | [v; sz; c; "reuse"; s1; ms1; m0; m1] ->
+      (* the rule object first served the moves ms1 of a game of size s1 (FpaState.dirty), then this sub-tree *)
+      let ms1 = if ms1 = "-" then [] else L.map parse_move (S.split_on_char ',' ms1) in
+      (match FpaState.run_from_dirty fx (variant v) (n_of_string s1) ms1 (n_of_string sz) (c = "W") [parse_move m0; parse_move m1] with
+       | Some (t, tr) ->
+         let b = Buffer.create 256 in
+         L.iter (ev b) tr;
+         (tally t ^ " ; " ^ Buffer.contents b, None, None)
+       | None -> ("MODEL-REJECTS-PREFIX", None, None))
     | [v; sz; c; m0; m1] ->
       let ms = if m0 = "-" then [] else [parse_move m0; parse_move m1] in
       (match Fpa.run_from [] fx (variant v) (n_of_string sz) (c = "W") ms with
